@@ -8,7 +8,10 @@ import (
 	"fmt"
 	"io"
 	"net"
+	"os"
 	"runtime"
+	"strconv"
+	"strings"
 	"sync"
 	"time"
 
@@ -234,4 +237,41 @@ func (l *Listener) Close() {
 		c.Close()
 	}
 	l.mu.Unlock()
+}
+
+// UDPDrops returns the kernel's count of datagrams it discarded for the UDP sockets bound to the
+// given local port (column "drops" of /proc/net/udp and /proc/net/udp6: receive-buffer overflow),
+// or -1 when the tables cannot be read.  A monitor uses it to tell "the peer did not answer" from
+// "the kernel threw the datagram away".
+func UDPDrops(port int) int64 {
+	total, found := int64(0), false
+	for _, f := range []string{"/proc/net/udp", "/proc/net/udp6"} {
+		b, err := os.ReadFile(f)
+		if err != nil {
+			continue
+		}
+		for i, l := range strings.Split(string(b), "\n") {
+			fs := strings.Fields(l)
+			if i == 0 || len(fs) < 13 {
+				continue
+			}
+			j := strings.LastIndex(fs[1], ":")
+			if j < 0 {
+				continue
+			}
+			p, err := strconv.ParseInt(fs[1][j+1:], 16, 32)
+			if err != nil || int(p) != port {
+				continue
+			}
+			d, err := strconv.ParseInt(fs[len(fs)-1], 10, 64)
+			if err == nil {
+				total += d
+				found = true
+			}
+		}
+	}
+	if !found {
+		return -1
+	}
+	return total
 }
